@@ -347,3 +347,82 @@ Definition exchange (q : quirks) (f : fns) (c : pcfg) (r : creq) (b : bresp) : o
       | None => NoResponse (Some br)
       end
   end.
+
+(** ** histories: one pipeline instance, a pool with a memoryCache
+    - [hdr_edit]   : the `header` section of the ResponseAdaptor (httpheader.Adapt: del, set, add),
+                     applied before body / compress / decompress
+    - [cache_key], [loadable], [storable] : pkg/filters/proxy/memorycache.go key / Load / Store
+    - [step]       : ServerPool.handle with buildResponseFromCache; the cache holds an immutable
+                     copy of (status, header, payload) as it left buildResponse, i.e. BEFORE the
+                     filters after the Proxy touched it; entries never expire within a history *)
+Record hedit := { he_del : list string; he_set : list (string * string); he_add : list (string * string) }.
+Definition no_edit : hedit := {| he_del := []; he_set := []; he_add := [] |}.
+
+Definition edit_headers (e : hedit) (h : headers) : headers :=
+  fold_left (fun acc kv => h_add (fst kv) (snd kv) acc) (he_add e)
+    (fold_left (fun acc kv => h_set (fst kv) (snd kv) acc) (he_set e)
+       (fold_left (fun acc k => h_del k acc) (he_del e) h)).
+
+Definition hdr_edit (e : hedit) (r : resp) : resp :=
+  {| rs_status := rs_status r; rs_headers := edit_headers e (rs_headers r); rs_cl := rs_cl r;
+     rs_decl := rs_decl r; rs_body := rs_body r; rs_stream := rs_stream r |}.
+
+Record cache_spec := { mc_on : bool; mc_codes : list Z; mc_methods : list string; mc_max : Z }.
+Record centry := { ce_status : Z; ce_headers : headers; ce_cl : option Z; ce_body : string }.
+Definition cache := list (string * centry).
+
+Definition str_mem (s : string) (l : list string) : bool := existsb (String.eqb s) l.
+Definition cc_has (words : list string) (h : headers) : bool :=
+  existsb (fun v => existsb (fun w => contains w v) words) (h_values "Cache-Control" h).
+
+Definition cache_key (host path method : string) : string := "http" ++ host ++ path ++ method.
+
+Definition loadable (s : cache_spec) (method : string) (req_headers : headers) : bool :=
+  mc_on s && str_mem method (mc_methods s) && negb (cc_has ["no-cache"] req_headers).
+
+Definition storable (s : cache_spec) (method : string) (req_headers : headers) (r : resp) : bool :=
+  mc_on s && negb (rs_stream r) && (slen (rs_body r) <=? mc_max s) &&
+  str_mem method (mc_methods s) && existsb (Z.eqb (rs_status r)) (mc_codes s) &&
+  negb (cc_has ["no-store"; "no-cache"] req_headers) &&
+  negb (cc_has ["no-store"; "no-cache"; "must-revalidate"] (rs_headers r)).
+
+Definition entry_of (r : resp) : centry :=
+  {| ce_status := rs_status r; ce_headers := rs_headers r; ce_cl := rs_cl r; ce_body := rs_body r |}.
+Definition resp_of_entry (e : centry) : resp :=
+  {| rs_status := ce_status e; rs_headers := ce_headers e; rs_cl := ce_cl e; rs_decl := -1;
+     rs_body := ce_body e; rs_stream := false |}.
+
+(** the filters after the Proxy, then the write-out *)
+Definition finish (q : quirks) (f : fns) (c : pcfg) (e : hedit) (r : resp) : wresp :=
+  write_out (response_adaptor q f (p_rs c) (hdr_edit e r)).
+
+Definition step (q : quirks) (f : fns) (c : pcfg) (e : hedit) (s : cache_spec)
+           (st : cache) (r : creq) (b : bresp) : outcome * cache :=
+  match f_parse_target f (cq_target r) with
+  | None => (Answered (failure 400) None, st)
+  | Some (path, _) =>
+      match request_adaptor f (p_ra c) (cq_headers r) (cq_body r) with
+      | None => (Answered (failure 503) None, st)
+      | Some (h, _) =>
+          let key := cache_key (cq_host r) path (cq_method r) in
+          match (if loadable s (cq_method r) h then alookup key st else None) with
+          | Some ent => (Answered (finish q f c e (resp_of_entry ent)) None, st)
+          | None =>
+              match forward q f c r with
+              | ReqReject code => (Answered (failure code) None, st)
+              | ReqSent br added cloned =>
+                  match transport_response f added b with
+                  | None => (Answered (failure 500) (Some br), st)
+                  | Some r0 =>
+                      match build_response q f c cloned r0 with
+                      | Fail500 => (Answered (failure 500) (Some br), st)
+                      | Panicked => (NoResponse (Some br), st)
+                      | Ok r1 =>
+                          (Answered (finish q f c e r1) (Some br),
+                           if storable s (cq_method r) h r1 then (key, entry_of r1) :: st else st)
+                      end
+                  end
+              end
+          end
+      end
+  end.
